@@ -5,6 +5,7 @@ use vstd::arithmetic::div_mod::*;
 use vstd::arithmetic::power2::*;
 use vstd::bits::*;
 use vstd::std_specs::bits::*;
+use super::nl::*;
 verus! {
 
 
@@ -155,6 +156,172 @@ pub proof fn lemma_redc64(n: int, ninv: int, x: int, mul: int)
     assert(mhi < n) by (nonlinear_arith) requires m == r * mhi + mlo, 0 <= mlo, m < r * n, r > 0;
     assert((xhi + mhi + 1) * r == x + m) by (nonlinear_arith) requires x == r * xhi + xlo, m == r * mhi + mlo, mlo + xlo == r;
     assert(xhi + mhi + 1 < 2 * n) by (nonlinear_arith) requires (xhi + mhi + 1) * r == x + m, x < n * r, m < r * n, r > 0;
+}
+
+
+pub open spec fn two128() -> int { 0x1_0000_0000_0000_0000int * 0x1_0000_0000_0000_0000int }
+
+/// Montgomery reduction step for a general radix r (the arithmetic behind `M128::mul`)
+pub proof fn lemma_redc_gen(r: int, n: int, ninv: int, x: int, mul: int)
+    requires
+        r > 0, 0 < n < r, 0 <= ninv < r, (n * ninv + 1) % r == 0,
+        0 <= x < n * r, x % r != 0,
+        mul == ((x % r) * ninv) % r,
+    ensures
+        0 <= mul * n < r * r,
+        (x % r) + ((mul * n) % r) == r,
+        (mul * n) / r < n,
+        (x / r + (mul * n) / r + 1) * r == x + mul * n,
+        x / r + (mul * n) / r + 1 < 2 * n,
+{
+    let xlo = x % r; let xhi = x / r;
+    let m = mul * n;
+    let mlo = m % r; let mhi = m / r;
+    lemma_fundamental_div_mod(x, r);
+    lemma_fundamental_div_mod(m, r);
+    lemma_mod_bound(xlo * ninv, r);
+    assert(0 <= mul < r);
+    lemma_mul_nonneg(mul, n);
+    lemma_mul_lt_pos(mul, r, n);
+    lemma_mul_lt_pos(n, r, r);
+    assert(m < r * n);
+    assert(m < r * r);
+    let k = (n * ninv + 1) / r;
+    lemma_fundamental_div_mod(n * ninv + 1, r);
+    assert(n * ninv == r * k - 1);
+    lemma_mul_mod_noop_general(xlo * ninv, n, r);
+    assert((mul * n) % r == ((xlo * ninv) * n) % r);
+    // (xlo*ninv)*n + xlo == (xlo*k)*r
+    lemma_mul_assoc(xlo, ninv, n); lemma_mul_comm(ninv, n);
+    lemma_distrib_l_sub(xlo, r * k, 1); lemma_mul_one(xlo);
+    lemma_mul_assoc(xlo, r, k); lemma_mul_comm(xlo, r); lemma_mul_assoc(r, xlo, k); lemma_mul_comm(r, xlo * k);
+    assert((xlo * ninv) * n + xlo == (xlo * k) * r);
+    lemma_mod_multiples_basic(xlo * k, r);
+    lemma_add_mod_noop((xlo * ninv) * n, xlo, r);
+    lemma_add_mod_noop(m, xlo, r);
+    lemma_small_mod(xlo as nat, r as nat);
+    assert((mlo + xlo) % r == 0);
+    lemma_mod_bound(m, r);
+    assert(0 < mlo + xlo < 2 * r);
+    if mlo + xlo != r {
+        if mlo + xlo < r { lemma_small_mod((mlo + xlo) as nat, r as nat); }
+        else { lemma_mod_multiples_vanish(1, mlo + xlo - r, r); lemma_small_mod((mlo + xlo - r) as nat, r as nat); lemma_mul_one(r); }
+        assert(false);
+    }
+    // mhi < n
+    if mhi >= n { lemma_mul_le(n, mhi, r); }
+    // (xhi + mhi + 1) * r == x + m
+    lemma_distrib_r(xhi + mhi, 1, r); lemma_distrib_r(xhi, mhi, r); lemma_mul_one(r);
+    lemma_mul_comm(xhi, r); lemma_mul_comm(mhi, r);
+    assert((xhi + mhi + 1) * r == x + m);
+    // < 2n
+    if xhi + mhi + 1 >= 2 * n { lemma_mul_le(2 * n, xhi + mhi + 1, r); lemma_mul_assoc(2, n, r); lemma_mul_comm(n, r); }
+}
+
+pub proof fn lemma_u128_hi_lo(v: u128)
+    ensures v as int == ((v >> 64) as int) * two64() + ((v as u64) as int), (v >> 64) < 0x1_0000_0000_0000_0000u128,
+        ((v & 0xffff_ffff_ffff_ffffu128) as int) == (v as u64) as int,
+        (v << 64u32) as int == ((v as u64) as int) * two64(),
+{
+    assert(v == (v >> 64) * 0x1_0000_0000_0000_0000u128 + (v as u64) as u128) by (bit_vector);
+    assert((v >> 64) < 0x1_0000_0000_0000_0000u128) by (bit_vector);
+    assert((v & 0xffff_ffff_ffff_ffffu128) == (v as u64) as u128) by (bit_vector);
+    assert((v << 64u32) == ((v as u64) as u128) * 0x1_0000_0000_0000_0000u128) by (bit_vector);
+}
+
+
+/// (lo, hi) are the two halves of v in radix r
+pub open spec fn split_at(lo: int, hi: int, r: int, v: int) -> bool { lo + r * hi == v && 0 <= lo < r }
+
+
+/// One step of the 2-adic Newton-like lifting used by `mg_2adic_inv` / `M128::inv_2adic` in radix R = 2^e:
+/// if n*x ≡ 1 (mod 2^k) and t is the 2-adic valuation of (n*x - 1) mod R, then t >= k and
+/// x2 ≡ x + 2^t (mod R) satisfies n*x2 ≡ 1 (mod 2^(t+1)).
+pub proof fn lemma_2adic_step(n: int, x: int, e: nat, k: nat, rem: int, t: nat, x2: int)
+    requires
+        n % 2 == 1, 1 <= k <= e,
+        (n * x - 1) % (pow2(k) as int) == 0,
+        rem == (n * x - 1) % (pow2(e) as int), rem != 0,
+        t < e, rem % (pow2(t) as int) == 0, (rem / (pow2(t) as int)) % 2 == 1,
+        (x2 - x - pow2(t) as int) % (pow2(e) as int) == 0,
+    ensures
+        t >= k,
+        (n * x2 - 1) % (pow2(t + 1) as int) == 0,
+{
+    let a = n * x - 1;
+    let r = pow2(e) as int; let pk = pow2(k) as int; let pt = pow2(t) as int;
+    lemma_pow2_pos(e); lemma_pow2_pos(k); lemma_pow2_pos(t);
+    // rem % pk == 0
+    lemma_pow2_divides(k, e);
+    lemma_mod_of_mod(a, r, pk);
+    if t < k {
+        lemma_pow2_divides(t + 1, k);
+        lemma_pow2_pos(t + 1);
+        lemma_dvd_trans_mod(rem, pk, pow2(t + 1) as int);
+        lemma_pow2_unfold(t + 1);
+        lemma_fundamental_div_mod(rem, 2 * pt);
+        let cc = rem / (2 * pt);
+        lemma_mul_assoc(2, pt, cc); lemma_mul_comm(2, pt); lemma_mul_assoc(pt, 2, cc);
+        assert(rem == pt * (2 * cc));
+        lemma_div_multiples_vanish(2 * cc, pt);
+        lemma_mul_comm(2 * cc, pt);
+        assert(rem / pt == 2 * cc);
+        assert(false);
+    }
+    // witnesses
+    lemma_fundamental_div_mod(a, r);
+    let c = a / r;
+    lemma_fundamental_div_mod(rem, pt);
+    let o = rem / pt;
+    lemma_fundamental_div_mod(x2 - x - pt, r);
+    let j = (x2 - x - pt) / r;
+    lemma_fundamental_div_mod(n, 2);
+    let h = n / 2;
+    lemma_fundamental_div_mod(o, 2);
+    let g = o / 2;
+    lemma_pow2_divides(t + 1, e);
+    lemma_pow2_unfold(t + 1);
+    let hh = pow2((e - (t + 1)) as nat) as int;
+    assert(r == (2 * pt) * hh);
+    // a2 = a + n*pt + n*r*j
+    let a2 = n * x2 - 1;
+    lemma_distrib_l(n, x + pt, r * j); lemma_distrib_l(n, x, pt);
+    assert(x2 == x + pt + r * j);
+    assert(a2 == a + n * pt + n * (r * j));
+    // n*pt == 2pt*h + pt
+    lemma_distrib_r(2 * h, 1, pt); lemma_mul_one(pt); lemma_mul_assoc(2, h, pt); lemma_mul_comm(h, pt); lemma_mul_assoc(2, pt, h);
+    assert(n * pt == (2 * pt) * h + pt);
+    // rem + pt == 2pt*(g+1)
+    lemma_distrib_l(pt, 2 * g, 1); lemma_mul_assoc(pt, 2, g); lemma_mul_comm(pt, 2);
+    assert(rem == (2 * pt) * g + pt);
+    lemma_distrib_l(2 * pt, g, 1); lemma_mul_one(2 * pt);
+    // r*c and n*(r*j) are multiples of 2pt
+    lemma_mul_assoc(2 * pt, hh, c);
+    lemma_mul_assoc(n, r, j); lemma_mul_comm(n, r); lemma_mul_assoc(r, n, j); lemma_mul_assoc(2 * pt, hh, n * j);
+    let q = hh * c + (g + 1) + h + hh * (n * j);
+    lemma_distrib_l(2 * pt, hh * c + (g + 1) + h, hh * (n * j));
+    lemma_distrib_l(2 * pt, hh * c + (g + 1), h);
+    lemma_distrib_l(2 * pt, hh * c, g + 1);
+    assert(a2 == (2 * pt) * q);
+    lemma_mod_multiples_basic(q, 2 * pt);
+    lemma_mul_comm(q, 2 * pt);
+}
+
+
+pub proof fn lemma_u128_one_shl(t: u32)
+    requires t < 128
+    ensures (1u128 << t) as int == pow2(t as nat) as int
+    decreases t
+{
+    lemma2_to64();
+    if t == 0 {
+        assert((1u128 << 0u32) == 1u128) by (bit_vector);
+    } else {
+        let t1 = (t - 1) as u32;
+        lemma_u128_one_shl(t1);
+        assert((1u128 << t) == 2 * (1u128 << t1)) by (bit_vector) requires 0 < t < 128, t1 == t - 1;
+        lemma_pow2_unfold(t as nat);
+    }
 }
 
 } // verus!
